@@ -35,6 +35,50 @@ def eq_key(i):
     return i
 
 
+_ext_uid = [0]
+_ext_dirs = []
+
+
+def _cleanup_ext():
+    import shutil
+
+    for d in _ext_dirs:
+        shutil.rmtree(d, ignore_errors=True)
+
+
+def make_ext_package(specs):
+    """write a fresh package with modules at depth 1 and depth 3 holding the `ext` classes; returns
+    (package name, [dotted reference per class]) WITHOUT importing it"""
+    import atexit
+    import os
+    import sys
+    import tempfile
+
+    if not _ext_dirs:
+        atexit.register(_cleanup_ext)
+    _ext_uid[0] += 1
+    root = tempfile.mkdtemp(prefix="ovldverif_ext_")
+    _ext_dirs.append(root)
+    pkg = f"vx{os.getpid()}_{_ext_uid[0]}"
+    os.makedirs(os.path.join(root, pkg, "sub", "deep"))
+    for d in (pkg, os.path.join(pkg, "sub"), os.path.join(pkg, "sub", "deep")):
+        open(os.path.join(root, d, "__init__.py"), "w").close()
+    shallow, deep, refs = [], ["from ...m1 import *"], []
+    for i, sp in enumerate(specs):
+        base = f"E{sp['base']}" if sp.get("base") is not None else "object"
+        line = f"class E{i}({base}):\n    pass\n"
+        if sp["mod"] == "shallow":
+            shallow.append(line)
+            refs.append(f"{pkg}.m1.E{i}")
+        else:
+            deep.append(line)
+            refs.append(f"{pkg}.sub.deep.m3.E{i}")
+    open(os.path.join(root, pkg, "m1.py"), "w").write("\n".join(shallow) + "\n")
+    open(os.path.join(root, pkg, "sub", "deep", "m3.py"), "w").write("\n".join(deep) + "\n")
+    sys.path.insert(0, root)
+    return pkg, refs
+
+
 class World:
     """desc = {"n": total classes, "user": [ {bases:[ids], kind:"plain|abc|proto|generic", attrs:[m], virtual:[ids]} ... ],
     "preds": [[class ids] ...]}"""
@@ -69,10 +113,29 @@ class World:
         for i, u in enumerate(desc["user"]):
             for v in u.get("virtual", []):
                 self.classes[NBUILTIN + i].register(self.classes[v])
+        # classes that live in an external package, referred to through Deferred["pkg.mod.Cls"] created BEFORE
+        # the package is imported (C13: deferred classes)
+        self.deferred = []
+        if desc.get("ext"):
+            import importlib
+
+            from ovld.types import Deferred
+
+            pkg, refs = make_ext_package(desc["ext"])
+            dts = [Deferred[r] for r in refs]
+            m1 = importlib.import_module(f"{pkg}.m1")
+            m3 = importlib.import_module(f"{pkg}.sub.deep.m3")
+            for i, sp in enumerate(desc["ext"]):
+                cls = getattr(m1 if sp["mod"] == "shallow" else m3, f"E{i}")
+                self.classes.append(cls)
+                self.names.append(f"E{i}")
+                self.deferred.append((dts[i], cls))
         self.n = len(self.classes)
         self.pred_sets = [set(self.classes[c] for c in s) for s in desc.get("preds", [[]] * NPRED)]
+        for dt, target in self.deferred:
+            self.pred_sets.append(set(c for c in self.classes if isinstance(c, type) and issubclass(c, target)))
         self.pred_calls = [0] * len(self.pred_sets)
-        self.pred_fns = [self._mkpred(k) for k in range(len(self.pred_sets))]
+        self.pred_fns = [self._mkpred(k) for k in range(NPRED)]
         self.dep_fns = {}
 
     def _mkpred(self, k):
@@ -136,6 +199,8 @@ class World:
                     v = StrictSubclass[self.classes[d[2]]]
                 elif k == "hasm":
                     v = HasMethod[f"m{d[2]}"]
+                elif d[2] >= NPRED:
+                    v = self.deferred[d[2] - NPRED][0]
                 else:
                     v = class_check(self.pred_fns[d[2]])
                 self._memo[key] = (v, d[2])
@@ -201,13 +266,16 @@ def gen_world_desc(rng: random.Random, nuser=None, features=True):
         r = rng.random()
         if features and r < 0.12:
             kind = "abc"
-        elif features and r < 0.2 and len(protos_used) < NATTR:
+        elif features and r < 0.2 and (len(protos_used) < NATTR or rng.random() < 0.3):
             kind = "proto"
         elif features and r < 0.3:
             kind = "generic"
         u = {"kind": kind, "bases": [], "attrs": [], "virtual": []}
         if kind == "proto":
-            m = rng.choice([m for m in range(NATTR) if m not in protos_used])
+            free = [m for m in range(NATTR) if m not in protos_used]
+            # now and then a *twin*: a second protocol requiring the same method — two distinct classes that are
+            # subclasses of each other (the one way to break antisymmetry of issubclass)
+            m = rng.choice(free) if free and rng.random() < 0.8 else rng.randrange(NATTR)
             protos_used.add(m)
             u["proto_attr"] = m
         else:
@@ -231,8 +299,17 @@ def gen_world_desc(rng: random.Random, nuser=None, features=True):
                 if rng.random() < 0.25:
                     u["virtual"].append(o)
     n = NBUILTIN + nuser
-    preds = [[c for c in range(n) if rng.random() < 0.4] for _ in range(NPRED)]
-    return {"n": n, "user": user, "preds": preds}
+    ext = []
+    if features and rng.random() < 0.3:
+        for i in range(rng.randint(1, 3)):
+            ext.append({"mod": rng.choice(["shallow", "deep", "deep"]), "base": (rng.randrange(i) if i and rng.random() < 0.6 else None)})
+        # a class in the deep module may only derive from classes of the shallow one or earlier deep ones
+    n_all = n + len(ext)
+    preds = [[c for c in range(n_all) if rng.random() < 0.4] for _ in range(NPRED)]
+    d = {"n": n_all, "user": user, "preds": preds}
+    if ext:
+        d["ext"] = ext
+    return d
 
 
 def make_world(rng, **kw):
